@@ -356,20 +356,26 @@ Proof. exact bar_decay_limit. Qed.
 Print Assumptions C09_bar_decay_limit.
 
 (** ** 5. Forgetting
-    [C09_reset_forgets], [C09_rewind_forgets_partial] and [C09_rewind_is_restart] are DEFINITIONAL:
+    WHAT is forgotten is the ESTIMATOR's past.  [C09_reset_forgets], [C09_rewind_forgets_partial],
+    [C09_rewind_is_restart] and [C09_estimator_forgets_after_restart] are DEFINITIONAL (+ congruence):
     [est_reset] overwrites both averages and both instants ([bar_reset_est] also the baseline), so
-    the state after a restart does not mention the old estimator and the three statements hold by
-    unfolding.  What ties them to the code is the bit-exact correspondence and the fresh-twin
-    oracle.  [C09_forgets_observationally] is the statement about observations for ARBITRARY
-    pasts; [C09_restart_is_fresh] and [C09_translation_invariant] carry the proof content. *)
-(** two estimators with arbitrary pasts (any histories h1, h2 from any creation instants), the
-    same restart x at the same instant (reset_eta / reset_elapsed / reset, or a record below both
-    baselines = a recorded backwards seek), the same suffix of calls: the states coincide, hence
-    every later steps_per_second, and per_sec / eta / duration / elapsed of two bars that agree
-    on position, length, status and start.  Every arithmetic (also binary64). *)
-Theorem C09_forgets_observationally : forall (A : arith) h1 h2 t1 t2 x sfx,
-  let e1 := est_runA A h1 (est_new A t1) in
-  let e2 := est_runA A h2 (est_new A t2) in
+    the state after a restart does not mention the old estimator.  What ties them to the code is
+    the bit-exact correspondence and the fresh-twin oracle; [C09_restart_is_fresh] and
+    [C09_translation_invariant] carry the proof content.
+    WHICH later public calls reach the estimator still depends on the POSITION LIMITER
+    (AtomicPosition::allow), whose state is not part of the estimator: reset_eta, reset_elapsed and a
+    backwards seek do not touch it at all (BarState::reset, state.rs:74-98); reset() calls
+    AtomicPosition::reset (state.rs:599-603), which zeroes the position and moves the limiter's
+    [prev] to the reset instant but keeps its bucket ([capacity]).  So at the level of public calls
+    the limiter state is part of what must agree ([same_but_est], [C09_bar_forgets_given_same_limiter]),
+    and without that agreement the past leaks ([C09_bar_limiter_leak_refuted]). *)
+(** estimator level.  ARBITRARY estimator states e1 e2, the same restart x (reset_eta / reset_elapsed /
+    reset, or a record below both baselines = a recorded backwards seek), the same suffix [sfx] of
+    calls THAT REACHED THE ESTIMATOR (Estimator::record / BarState::reset events - NOT public calls):
+    the states coincide, hence every later steps_per_second; two bars that are ASSUMED to carry
+    these estimator states and to agree on position, length, status and start then report the
+    same per_sec / eta / duration / elapsed.  Definitional + congruence; every arithmetic. *)
+Theorem C09_estimator_forgets_after_restart : forall (A : arith) (e1 e2 : est (T A)) x sfx,
   is_restart x e1 -> is_restart x e2 ->
   est_runA A (x :: sfx) e1 = est_runA A (x :: sfx) e2 /\
   (forall q, est_sps A (est_runA A (x :: sfx) e1) q = est_sps A (est_runA A (x :: sfx) e2) q) /\
@@ -378,8 +384,40 @@ Theorem C09_forgets_observationally : forall (A : arith) h1 h2 t1 t2 x sfx,
      b_pos b1 = b_pos b2 -> b_len b1 = b_len b2 -> b_done b1 = b_done b2 ->
      b_started b1 = b_started b2 ->
      bar_query A b1 q = bar_query A b2 q).
-Proof. exact forgets_observationally. Qed.
-Print Assumptions C09_forgets_observationally.
+Proof. exact estimator_forgets_after_restart. Qed.
+Print Assumptions C09_estimator_forgets_after_restart.
+
+(** bar level, PUBLIC calls: two bars with arbitrary pasts (any two histories of public calls from
+    any two creations) that stand at the same clock reading and agree on position, length,
+    status, start AND the position limiter's state ([same_but_est]) make the same observations at
+    every query of the same public continuation that begins with reset_eta / reset_elapsed / reset.
+    Every arithmetic. *)
+Theorem C09_bar_forgets_given_same_limiter : forall (A : arith) len1 len2 t1 t2 ops1 ops2 o sfx,
+  let b1 := fst (run_state A ops1 t1 (bar_new A len1 t1)) in
+  let b2 := fst (run_state A ops2 t2 (bar_new A len2 t2)) in
+  let n1 := snd (run_state A ops1 t1 (bar_new A len1 t1)) in
+  let n2 := snd (run_state A ops2 t2 (bar_new A len2 t2)) in
+  n1 = n2 -> o = ResetEta \/ o = ResetElapsed \/ o = ResetAll -> same_but_est A b1 b2 ->
+  snd (bar_run A (o :: sfx) n1 b1) = snd (bar_run A (o :: sfx) n2 b2).
+Proof. exact bar_forgets_given_same_limiter. Qed.
+Print Assumptions C09_bar_forgets_given_same_limiter.
+
+(** REFUTED without the agreement on the limiter (over R): bar A made ten set_position(5) calls at
+    t = 1 us (bucket empty), bar B one; both get reset_eta at 2 us and inc(1) at 3 us.  They agree
+    on position, length, status and start - but A's inc is refused by the limiter and never
+    reaches the estimator (per_sec = 0) while B's is recorded (per_sec > 0) *)
+Theorem C09_bar_limiter_leak_refuted :
+  exists len t0,
+    let bA := fst (run_state Rar leak_opsA t0 (bar_new Rar len t0)) in
+    let bB := fst (run_state Rar leak_opsB t0 (bar_new Rar len t0)) in
+    let nA := snd (run_state Rar leak_opsA t0 (bar_new Rar len t0)) in
+    let nB := snd (run_state Rar leak_opsB t0 (bar_new Rar len t0)) in
+    no_wrap leak_opsA t0 /\ no_wrap leak_opsB t0 /\ nA = nB /\
+    b_pos bA = b_pos bB /\ b_len bA = b_len bB /\ b_done bA = b_done bB /\
+    b_started bA = b_started bB /\ b_lim bA <> b_lim bB /\
+    bar_per_sec Rar bA nA = 0 /\ 0 < bar_per_sec Rar bB nB.
+Proof. exact bar_limiter_leak_refuted. Qed.
+Print Assumptions C09_bar_limiter_leak_refuted.
 
 (** reset_eta / reset_elapsed / reset: two bars that differ only in what their estimators have
     learned are EQUAL afterwards, hence so is every later observation of every continuation.
